@@ -21,6 +21,9 @@ type Node struct {
 	Reqs    [][]int `json:"reqs,omitempty"` // dependency requests, in order; each is one EvaluateTargets call
 	Fail    bool    `json:"fail,omitempty"` // body fails after its dependencies
 	Unknown bool    `json:"unknown,omitempty"`
+	// Tolerant targets carry on with their remaining requests and their body after a dependency
+	// failed (a runner.Target may do that; dawn's own targets give up).
+	Tolerant bool `json:"tolerant,omitempty"`
 	Yields  int     `json:"yields,omitempty"` // scheduling points inside the body
 }
 
@@ -183,7 +186,7 @@ func (t *tgt) Evaluate(engine runner.Engine) (err error) {
 			}
 		}
 		o.mu.Unlock()
-		if depFailed {
+		if depFailed && !n.Tolerant {
 			return &nodeErr{label(t.idx), "dependency failed"}
 		}
 	}
